@@ -76,6 +76,15 @@ func c04Proof(family string, k int) (*codectypes.Any, string) {
 		m = &evmtypes.ValidatorBalancesAttestationRes{BlockHeight: 100, Balances: []string{"10", fmt.Sprint(k)}}
 	case "refblock":
 		m = &evmtypes.ReferenceBlockAttestationRes{BlockHeight: uint64(100 + k), BlockHash: "0xabc"}
+	case "balancesDigitShift":
+		// different answers whose digits, written one after the other, coincide: 123|51, 12|351, 1|2351, 1235|1
+		hs := []uint64{123, 12, 1, 1235}
+		bs := []string{"51", "351", "2351", "1"}
+		m = &evmtypes.ValidatorBalancesAttestationRes{BlockHeight: hs[k%4], Balances: []string{bs[k%4], "1000"}}
+	case "refblockDigitShift":
+		hs := []uint64{123, 12, 1, 1234}
+		bs := []string{"4abc", "34abc", "234abc", "abc"}
+		m = &evmtypes.ReferenceBlockAttestationRes{BlockHeight: hs[k%4], BlockHash: bs[k%4]}
 	default:
 		panic(family)
 	}
@@ -83,11 +92,28 @@ func c04Proof(family string, k int) (*codectypes.Any, string) {
 	if err != nil {
 		panic(err)
 	}
-	bz, err := m.BytesToHash()
-	if err != nil {
+	if _, err := m.BytesToHash(); err != nil {
 		panic(err)
 	}
-	return a, string(bz)
+	// identity of the evidence for the oracle: the bytes the validator submitted, not the digest input the code derives
+	return a, string(a.Value)
+}
+
+// c04SubmittedBytes renders a winner the way c04Proof identifies evidence: the bytes a validator submits for it.
+func c04SubmittedBytes(w any) []byte {
+	m, ok := w.(interface {
+		ProtoMessage()
+		Reset()
+		String() string
+	})
+	if !ok {
+		return nil
+	}
+	a, err := codectypes.NewAnyWithValue(m)
+	if err != nil {
+		return nil
+	}
+	return a.Value
 }
 
 func TestC04_EvidenceQuorum(t *testing.T) {
@@ -98,7 +124,7 @@ func TestC04_EvidenceQuorum(t *testing.T) {
 		snap := c04Snapshot(shares)
 		outsiders := rapid.IntRange(0, 3).Draw(t, "outsiders")
 		nproofs := rapid.IntRange(1, 4).Draw(t, "nproofs")
-		families := []string{"tx", "tx+receipt", "error", "balances", "refblock"}
+		families := []string{"tx", "tx+receipt", "error", "balances", "refblock", "balancesDigitShift", "refblockDigitShift"}
 		type proof struct {
 			any *codectypes.Any
 			key string
@@ -181,7 +207,8 @@ func TestC04_EvidenceQuorum(t *testing.T) {
 			if !ok {
 				t.Fatalf("winner is %T", res.Winner)
 			}
-			bz, _ := h.BytesToHash()
+			_ = h
+			bz := c04SubmittedBytes(res.Winner)
 			found := false
 			for _, w := range winners {
 				if strings.HasSuffix(w, ":"+string(bz)) {
@@ -282,7 +309,7 @@ func TestC04_LatestEvidenceCountsOnce(t *testing.T) {
 			if err != nil {
 				t.Fatalf("latest submissions for %q reach 2/3 but got %v", win, err)
 			}
-			bz, _ := res.Winner.(evmtypes.Hashable).BytesToHash()
+			bz := c04SubmittedBytes(res.Winner)
 			if string(bz) != win {
 				t.Fatalf("winner differs from the 2/3 group of latest submissions")
 			}
